@@ -3,6 +3,10 @@ import QV.Proofs.Mul
 import QV.Proofs.Front6
 import QV.Proofs.Front9
 import QV.Proofs.Front10
+import QV.Proofs.Front11
+import QV.Proofs.A2A6
+import QV.Proofs.A2A7
+import QV.Proofs.A2A8
 import QV.Model.Front
 /-!
 # C01 – Boolean expressions mean what the Python source means
@@ -412,7 +416,7 @@ theorem C01_library_partial (q : Quirks) (ρ : Env) (n : Nat) (l r : List BExp)
 
 /-! ## from expressions to programs: the straight-line fragment
 
-`Sem.straightLine p` (decidable, `QV/Proofs/Front9.lean`): arguments of type `bool` / `Qint[w]`
+`Sem.straightLine p` (decidable, `QV/Model/Frag.lean`; proofs in `QV/Proofs/Front9.lean`): arguments of type `bool` / `Qint[w]`
 (`w ≠ 1`) with dot-free names other than `_ret`; return type `bool` / `Qint[w]`; every statement an
 assignment `t = e` (`t` dot-free, not `_ret`, `e` in `Sem.inFrag`, `e` does not read `t`), a
 `return e` (`e` in `Sem.inFrag`), or an expression statement.  Augmented assignments and
@@ -556,5 +560,232 @@ theorem C01_statement_straightline (p : Prog) (consts : List (Bool × Bool))
         simp only [hx, Option.map_some, Option.some.injEq] at hexp
         subst hexp
         exact (hall xv hx).2
+
+/-! ## guarded assignments: what `ast2ast` leaves for an `if`
+
+`ASTRewriter.visit_If` builds `d = b if _iftargN else d` (if branch), `d = d if _iftargN else b` (else
+branch) and nests them for `elif` / an `if` in an else branch.  Such an assignment *reads its own target*:
+`Sem.straightLine` excludes it.  `Sem.guardedLine` (decidable, `QV/Model/Frag.lean`) accepts every
+right-hand side `Sem.guardedRhs t e`: a tree of if-expressions whose tests are variables other than `t`
+and whose leaves are `t` itself or fragment expressions that do not read `t` (every expression that does
+not read `t` is such a tree: `guardedLine_of_straightLine`). -/
+
+/-- **C01_body_guarded** – `C01_body` for the guarded fragment.  The definitions `t.0 := …; t.1 := …` of one
+assignment are evaluated one after the other, so bit `i` of a right-hand side that reads `t` sees new values
+in `t.0 … t.(i-1)`.  Proof (`QV/Proofs/Front11.lean`): bit `i` of the translated value of a `guardedRhs`
+evaluates the same under every assignment that differs from the current one only on `t.j`, `j < i`
+(`LowBits`, `low_of_guarded`: by recursion on the tree – a leaf `t` translates to the symbols `t.0 t.1 …`
+themselves, any other leaf does not depend on the symbols of `t` at all (`tr_indep`), an if-expression
+on a variable `g ≠ t` is `ITE(g, x_i, y_i)` bit by bit after `fill` (`tr_ite_inv`)); the sequential
+evaluation then produces, in `t.0 …`, the bits the value had before the first definition ran
+(`seq_eval_low`), which is what keeps the invariant `EnvInv` (`bind_value_low`, `assign_step_g`); the
+induction over the body is the one of `C01_body`. -/
+theorem C01_body_guarded (p : Prog) (consts : List (Bool × Bool)) (hp : Sem.guardedLine p = true)
+    (defs : List (String × BExp)) (events : List String)
+    (h : translate Quirks.none consts p = .ok (defs, events)) (ρ : Env) :
+    ∃ sv, Sem.semProg p ρ = some sv ∧ (p.ret.names "_ret").map (runDefs defs ρ) = sv.bits :=
+  Sem.translate_sound_g p consts hp defs events h ρ
+
+/-- every straight-line program is in the guarded fragment -/
+theorem guarded_of_straightLine (p : Prog) (h : Sem.straightLine p = true) : Sem.guardedLine p = true :=
+  Sem.guardedLine_of_straightLine p h
+
+/-- the hypotheses of `C01_body_guarded` are satisfiable, and not only by straight-line programs: the tree
+`ast2ast` produces for the latch `if a: a = False; r = r + 1` (then `return r`) is guarded, is **not**
+straight-line, and is accepted -/
+example :
+    let p : Prog := ⟨[("a", .bool), ("r", .qint 2)], .qint 2,
+      [.assign "_iftarg2" (.name "a"),
+       .assign "a" (.ite (.name "_iftarg2") (.cbool false) (.name "a")),
+       .assign "__r" (.ite (.name "_iftarg2") (.bin "add" (.name "r") (.cint 1)) (.name "r")),
+       .assign "r" (.ite (.name "_iftarg2") (.name "__r") (.name "r")),
+       .ret (.name "r")]⟩
+    Sem.guardedLine p = true ∧ Sem.straightLine p = false ∧
+      ∃ defs ev, translate Quirks.none [] p = .ok (defs, ev) := by
+  refine ⟨by decide, by decide, ?_⟩
+  exact ⟨_, _, rfl⟩
+
+/-- **C01_guarded** – `C01_straightline` for the guarded fragment: the return symbols hold the bits of the
+fixed-width meaning of the rewritten program, which agrees with the exact python meaning `Sem` of the same
+(rewritten) program on every bit that claims (`Sem.semProg_agree` needs no hypothesis on the statements) -/
+theorem C01_guarded (p : Prog) (consts : List (Bool × Bool)) (hp : Sem.guardedLine p = true)
+    (defs : List (String × BExp)) (events : List String)
+    (h : translate Quirks.none consts p = .ok (defs, events)) (ρ : Env) :
+    ∃ sv, Sem.semProg p ρ = some sv ∧ (p.ret.names "_ret").map (runDefs defs ρ) = sv.bits ∧
+      ∀ xv, Sem.semProgX p ρ = some xv →
+        Sem.Agree xv sv ∧
+        ∀ (i : Nat) (b : Bool), xv.claim[i]? = some (some b) →
+          ∀ name, (p.ret.names "_ret")[i]? = some name → runDefs defs ρ name = b := by
+  obtain ⟨sv, hs, hbits⟩ := C01_body_guarded p consts hp defs events h ρ
+  refine ⟨sv, hs, hbits, fun xv hx => ?_⟩
+  have ha := Sem.semProg_agree p ρ sv xv hs hx
+  refine ⟨ha, fun i b hc name hn => ?_⟩
+  have h1 := Sem.agree_claim ha i b hc
+  rw [← hbits, List.getElem?_map, hn] at h1
+  simpa using h1
+
+/-! ## `ast2ast`: the rewriting of `if` statements preserves the source-level meaning
+
+`QV/Model/Ast2Ast.lean` models the pass statement by statement (`A2A.ast2ast`; compared tree for tree with the
+real pass on every run).  `QV/Model/SemSrc.lean` gives the *source* tree a meaning with control flow
+(`A2A.execProg`): an `if` evaluates its test once, to a value, before any statement of a branch runs; the
+branch whose polarity the value has runs, the other changes no value (`A2A.exec` under a guard stack;
+an assignment under the stack stores `wrapW gs new old`); a `for` assigns the loop variable each value in turn and
+runs the body in the environment so extended.  Class `A2A.okProg` (decidable): user names, statements `t = e`,
+`t op= e` (every operator but `**`), `if` / `elif` / `else` nested to any depth through else branches (no loop
+inside an `if`), `for v in <range of int literals | tuple | list of int / bool literals>` nested to any depth with
+`if`s inside, expression statements and `return e` at the top level, `e` plain (`A2A.plainE`: user variables,
+bool / int constants, `not`, `~`, `and` / `or`, if-expressions, comparisons, binary operators, shifts by a
+literal). -/
+
+open QV.A2A in
+/-- **skipped_branch_keeps_values** – the guard-stack semantics is control flow.  Under a stack one of whose guards
+does not hold, whatever a statement does (assignments, loops, nested `if`s) leaves every variable with the python
+value it had (`SameVals`: same bool, same integer – its `Qint` type may have been widened, the library's typing of
+`new if g else old`). -/
+theorem skipped_branch_keeps_values (s : SStmt) (gs : List (Sem.SVal × Bool)) (hg : allHold gs = false)
+    (σ σ' : Sem.SEnv) (h : exec gs σ s = some σ') : SameVals σ σ' :=
+  exec_skipped_keeps_values s gs hg σ σ' h
+
+open QV.A2A in
+/-- **if_one_branch** – an `if` evaluates its test once, to `g`, and the statements of the branch `g` does not
+select change no value; an assignment under guards that all hold stores the value of its right-hand side
+(`wrapW_taken`) -/
+theorem if_one_branch (gs : List (Sem.SVal × Bool)) (σ σ1 σ' : Sem.SEnv) (c : SExp) (b e : List SStmt) (g : Bool)
+    (hc : Sem.semW σ (toP c) = some (.bool g)) (hb : execList (gs ++ [(.bool g, true)]) σ b = some σ1)
+    (he : execList (gs ++ [(.bool g, false)]) σ1 e = some σ') :
+    exec gs σ (.ifs c b e) = some σ' ∧ (g = false → SameVals σ σ1) ∧ (g = true → SameVals σ1 σ') ∧
+      ∀ (v o w : Sem.SVal), allHold gs = true → wrapW gs v o = some w → sameVal (some v) (some w) := by
+  obtain ⟨h1, h2, h3⟩ := if_runs_one_branch gs σ σ1 σ' c b e g hc hb he
+  exact ⟨h1, h2, h3, fun v o w hh hw => wrapW_taken gs hh v o w hw⟩
+
+open QV.A2A in
+/-- **ast2ast_if_preserved** (`if` **and** `for`) – running the rewritten straight-line list under `Sem.semProg` gives the value
+the source has under `execProg`: whenever the former is defined.  (An `if` in the *body* of an `if` makes the
+rewritten list read `_iftargN` before it is defined; such programs are outside `okProg`.)  Proof
+(`QV/Proofs/A2A1 … A2A6.lean`): simulation `ml_stmt` / `ml_list` by induction over the statement: the list
+the rewriter returns for a statement, wrapped in the guards `Γ` of the enclosing `if`s (`wrapF`, what the
+enclosing `visit_If` calls do to it afterwards), run from an environment that agrees with the source
+environment on the user variables (`Rel`), ends in such an environment, and the source environment is the
+one `exec` computes under the values of the guards; the guard variables are not touched (`Frame`; their names
+`_iftarg<hex n>` differ for different `n`: `iftargName_inj`).  One assignment: `assign_sim` – the if-expression
+chain `wrapE` evaluates to `wrapW` of the guard values (`semW_wrapE`); the pair `__t = …; t = __t` stores the
+same value because wrapping twice is wrapping once (`wrapW_idem`, from the closed form `wrapW_closed`).
+Loops: the rewriter is run with the list `θ` of replacements of the enclosing loop variables (`NameValReplacer`,
+applied lazily); the invariant `ThetaOK θ σ` says each replaced variable holds, in the source environment, the
+constant it is replaced by, so the replaced expression has the value of the original (`substE_sem`; a shift amount
+must be a literal because `semW` reads it from the syntax); a target that is a loop variable becomes a constant and
+the real pass raises (`substE_name`), hence no assignment breaks the invariant; `forLoop_ml` is the induction over
+the values. -/
+theorem ast2ast_if_preserved (p : SProg) (hp : okProg p = true) (L : List SStmt) (st : RSt)
+    (h : (rwSs [] p.body).run (initSt (aargsOf p)) = .ok (L, st)) (ρ : String → Bool) (sv : Sem.SVal)
+    (hsem : Sem.semProg ⟨p.args, p.ret, L.map toStmt⟩ ρ = some sv) : execProg p ρ = some sv :=
+  rewrite_preserved p hp L st h ρ sv hsem
+
+open QV.A2A in
+/-- **ast2ast_preserved_eq** – both directions: for the programs of `okProg` the fixed-width meaning of the rewritten
+straight-line program *is* the source-level meaning - both undefined, or both defined and equal - under every
+assignment of the argument bits; every nesting depth, every number of iterations.  The converse of
+`ast2ast_if_preserved` (`QV/Proofs/A2A8.lean`: `semW_wrapE_conv`, `assign_sim_conv`, `mlc_stmt` / `mlc_list`,
+`forLoop_mlc`, `body_preserved_conv`) mirrors the first direction. -/
+theorem ast2ast_preserved_eq (p : SProg) (hp : okProg p = true) (L : List SStmt) (st : RSt)
+    (h : (rwSs [] p.body).run (initSt (aargsOf p)) = .ok (L, st)) (ρ : String → Bool) :
+    Sem.semProg ⟨p.args, p.ret, L.map toStmt⟩ ρ = execProg p ρ :=
+  rewrite_preserved_eq p hp L st h ρ
+
+open QV.A2A in
+/-- the list the statement rewriter returns is the result of the whole pass `ast2ast` when the two
+constant-folding passes and the multi-target pass have nothing to do -/
+theorem ast2ast_of_rw (aargs : Args) (body L : List SStmt) (st : RSt)
+    (hres : rejectReserved (aargs.map (·.1)) body = .ok ()) (hf1 : foldSs body = .ok body)
+    (hmt : mtSs body = .ok body) (hrw : (rwSs [] body).run (initSt aargs) = .ok (L, st))
+    (hf2 : foldSs L = .ok L) : ∃ log, ast2ast aargs body = .ok (L, log) := by
+  have : ast2ast aargs body = .ok (L, st.log ++ (if body != body then ["fold-pre"] else [])
+      ++ (if body != body then ["multitarget"] else []) ++ (if L != L then ["fold-post"] else [])) := by
+    unfold ast2ast
+    simp only [hres, hf1, hmt, hrw, hf2, bind, Except.bind, pure, Except.pure]
+  exact ⟨_, this⟩
+
+open QV.A2A in
+/-- **C01_if** – end to end for programs with `if`.  Source program `p` in `okProg`; `L` the list the statement
+rewriter returns, which is the output of the whole pass `ast2ast` (nothing to fold, no tuple targets); the
+rewritten program in the guarded fragment (`Sem.guardedLine`, decidable: it holds when every self-reading
+assignment went through its `__` temporary) and accepted by `translate`.  Then for every assignment `ρ` of the
+argument bits the **source-level** meaning `execProg p ρ` is defined and the sequential evaluation of the
+definitions leaves exactly its bits in the return symbols; and every bit the exact python semantics of the
+rewritten program claims is that bit (`C01_guarded`). -/
+theorem C01_if (p : SProg) (hp : okProg p = true) (L : List SStmt) (st : RSt)
+    (hres : rejectReserved ((aargsOf p).map (·.1)) p.body = .ok ()) (hf1 : foldSs p.body = .ok p.body)
+    (hmt : mtSs p.body = .ok p.body)
+    (hrw : (rwSs [] p.body).run (initSt (aargsOf p)) = .ok (L, st)) (hf2 : foldSs L = .ok L)
+    (consts : List (Bool × Bool)) (hg : Sem.guardedLine ⟨p.args, p.ret, L.map toStmt⟩ = true)
+    (defs : List (String × BExp)) (events : List String)
+    (htr : translate Quirks.none consts ⟨p.args, p.ret, L.map toStmt⟩ = .ok (defs, events)) (ρ : Env) :
+    (∃ log, ast2ast (aargsOf p) p.body = .ok (L, log)) ∧
+    ∃ sv, execProg p ρ = some sv ∧ (p.ret.names "_ret").map (runDefs defs ρ) = sv.bits ∧
+      ∀ xv, Sem.semProgX ⟨p.args, p.ret, L.map toStmt⟩ ρ = some xv →
+        Sem.Agree xv sv ∧
+        ∀ (i : Nat) (b : Bool), xv.claim[i]? = some (some b) →
+          ∀ name, (p.ret.names "_ret")[i]? = some name → runDefs defs ρ name = b := by
+  refine ⟨ast2ast_of_rw _ _ L st hres hf1 hmt hrw hf2, ?_⟩
+  obtain ⟨sv, hs, hbits, hx⟩ := C01_guarded ⟨p.args, p.ret, L.map toStmt⟩ consts hg defs events htr ρ
+  exact ⟨sv, ast2ast_if_preserved p hp L st hrw ρ sv hs, hbits, hx⟩
+
+open QV.A2A in
+/-- the hypotheses of `C01_if` are satisfiable: the latch `if a: a = False; r = r + 1` followed by an `elif`
+chain that re-assigns what its tests read -/
+example :
+    let p : SProg := ⟨[("a", .bool), ("r", .qint 2)], .qint 2,
+      [.ifs (.name "a")
+         [.assign [.name "a"] (.const (.bool false)), .assign [.name "r"] (.bin "Add" (.name "r") (.const (.int 1)))]
+         [],
+       .ifs (.cmp "Gt" (.name "r") (.const (.int 2)))
+         [.aug (.name "r") "Sub" (.const (.int 1))]
+         [.ifs (.unop "Not" (.name "a")) [.assign [.name "a"] (.cmp "Eq" (.name "r") (.const (.int 0)))]
+            [.assign [.name "r"] (.const (.int 3))]],
+       .ret (some (.name "r"))]⟩
+    okProg p = true ∧ rejectReserved ((aargsOf p).map (·.1)) p.body = .ok () ∧ foldSs p.body = .ok p.body ∧
+      mtSs p.body = .ok p.body ∧
+      ∃ L st, (rwSs [] p.body).run (initSt (aargsOf p)) = .ok (L, st) ∧ foldSs L = .ok L ∧
+        Sem.guardedLine ⟨p.args, p.ret, L.map toStmt⟩ = true ∧
+        ∃ defs ev, translate Quirks.none [] ⟨p.args, p.ret, L.map toStmt⟩ = .ok (defs, ev) := by
+  refine ⟨by decide, rfl, rfl, rfl, _, _, rfl, rfl, by decide, _, _, rfl⟩
+
+open QV.A2A in
+/-- **C01_for** – `C01_if` is stated for `okProg`, which admits loops: this is the same statement, named for the
+loop case.  A `for` over a literal `range` / tuple / list is unrolled, the loop variable is assigned and replaced by
+each value (`visit_For`); the source-level meaning `execProg` iterates in the environment.  The hypothesis
+`foldSs L = .ok L` excludes bodies in which a replaced loop variable meets another constant (`s + (i + 1)`): there
+the second constant-folding pass computes on python ints what `semW` would compute at the constant's `Qint` type. -/
+theorem C01_for (p : SProg) (hp : okProg p = true) (L : List SStmt) (st : RSt)
+    (hres : rejectReserved ((aargsOf p).map (·.1)) p.body = .ok ()) (hf1 : foldSs p.body = .ok p.body)
+    (hmt : mtSs p.body = .ok p.body)
+    (hrw : (rwSs [] p.body).run (initSt (aargsOf p)) = .ok (L, st)) (hf2 : foldSs L = .ok L)
+    (consts : List (Bool × Bool)) (hg : Sem.guardedLine ⟨p.args, p.ret, L.map toStmt⟩ = true)
+    (defs : List (String × BExp)) (events : List String)
+    (htr : translate Quirks.none consts ⟨p.args, p.ret, L.map toStmt⟩ = .ok (defs, events)) (ρ : Env) :
+    (∃ log, ast2ast (aargsOf p) p.body = .ok (L, log)) ∧
+    ∃ sv, execProg p ρ = some sv ∧ (p.ret.names "_ret").map (runDefs defs ρ) = sv.bits :=
+  let ⟨h1, sv, h2, h3, _⟩ := C01_if p hp L st hres hf1 hmt hrw hf2 consts hg defs events htr ρ
+  ⟨h1, sv, h2, h3⟩
+
+open QV.A2A in
+/-- the hypotheses of `C01_for` are satisfiable: a loop over `range(1, 3)` with an augmented assignment that reads
+the loop variable and an `if` / `else` whose test reads it and whose branch re-assigns the test's variable -/
+example :
+    let p : SProg := ⟨[("a", .bool), ("r", .qint 2)], .qint 2,
+      [.for_ (.name "i") (.call "range" [.const (.int 1), .const (.int 3)])
+         [.aug (.name "r") "Add" (.name "i"),
+          .ifs (.cmp "Gt" (.name "r") (.name "i"))
+            [.assign [.name "r"] (.bin "BitXor" (.name "r") (.name "i")), .assign [.name "a"] (.unop "Not" (.name "a"))]
+            [.assign [.name "a"] (.const (.bool true))]]
+         [],
+       .ret (some (.ite (.name "a") (.name "r") (.name "i")))]⟩
+    okProg p = true ∧ rejectReserved ((aargsOf p).map (·.1)) p.body = .ok () ∧ foldSs p.body = .ok p.body ∧
+      mtSs p.body = .ok p.body ∧
+      ∃ L st, (rwSs [] p.body).run (initSt (aargsOf p)) = .ok (L, st) ∧ foldSs L = .ok L ∧
+        Sem.guardedLine ⟨p.args, p.ret, L.map toStmt⟩ = true ∧
+        ∃ defs ev, translate Quirks.none [] ⟨p.args, p.ret, L.map toStmt⟩ = .ok (defs, ev) := by
+  refine ⟨by decide, rfl, rfl, rfl, _, _, rfl, rfl, by decide, _, _, rfl⟩
 
 end QV.C01
